@@ -168,6 +168,7 @@ def check_s3(chk, m, K):
                 n_sites += 1
                 sid = "%s: %s(&kernel.%s, %s) [%s]" % (f.name, e.callee, q, fmt(node)[:40], "->".join(b.lstrip("%") for b in p.blocks[-4:]))
                 problems = []
+                unknowns = []
                 for other in ("runq", "timerq"):
                     ev = evidence_not_in(p, K, k_ins, node, other, f, m)
                     if ev is None:
@@ -196,11 +197,28 @@ def check_s3(chk, m, K):
                         ev = ("listed exception: the running fibre was popped for dispatch and, within the property's scope, has at most "
                               "one unsatisfied fibre_timeout per dispatch", -1)
                     if ev is None:
+                        # is membership decided from state this rule does not interpret?  A test, on this path, of a member of the
+                        # fibre's own descriptor other than its link (a 'queued' bit in f->state, a counter) means the code keeps
+                        # membership somewhere else: whether that bookkeeping is right is not something S3 can decide
+                        fib_root = ptr_parts(node)[0]
+                        opaque = None
+                        for c, taken, inst in p.conds:
+                            for x in paths.subexprs(c):
+                                if x[0] == "ld" and x[1] is not None and ptr_parts(x[1])[0] == fib_root and not ptr_parts(x[1])[2]:
+                                    offx = ptr_parts(x[1])[1] - (ptr_parts(node)[1] - K.link_off)
+                                    if offx in (K.fibre["state"][0], K.fibre["priv"][0]) or offx not in [o for o, sz in K.fibre.values()]:
+                                        opaque = x
+                        if opaque is not None:
+                            unknowns.append("membership in kernel.%s is decided from %s, which this rule does not interpret" % (other, fmt(opaque)[:40]))
+                            continue
                         problems.append("no evidence that the fibre is not already on kernel.%s" % other)
                         continue
                     between = [fib.callee_name(c) for k, c in fib.calls_on(p) if ev[1] < k < k_ins and fib.callee_name(c) in MAY_INSERT]
                     if between:
                         problems.append("%s may queue the fibre between the evidence (%s) and the insertion" % (between[0], ev[0]))
+                if unknowns and not problems:
+                    chk.unknown("S3.membership", sid, "; ".join(unknowns), e.inst.loc)
+                    continue
                 chk.ob("S3.membership", sid, not problems,
                        "; ".join(problems) + (": the node would be linked into two lists (or twice into one) and share one next pointer"
                                               if problems else "") if problems else
